@@ -10,6 +10,13 @@ pub struct Prop {
     pub run: fn(&Ctx),
 }
 
+pub mod c11_version_negotiation;
+pub mod c13_captive_portal;
+pub mod c15_dial_happy_eyeballs;
+pub mod c21_remote_lifecycle;
+pub mod c22_resolve;
+pub mod c23_prune_paths;
+pub mod c24_path_selection;
 pub mod c02_encodings;
 pub mod c03_handshake;
 pub mod c04_forwarding;
@@ -32,6 +39,13 @@ pub const REGISTRY: &[Prop] = &[
     Prop { id: "C08", level: "exploration", watchdog_quick_s: 1500, watchdog_thorough_s: 7200, run: c08_revocation::run },
     Prop { id: "C16", level: "exploration", watchdog_quick_s: 600, watchdog_thorough_s: 3600, run: c16_take_segments::run },
     Prop { id: "C25", level: "exploration", watchdog_quick_s: 1800, watchdog_thorough_s: 7200, run: c25_reprobe::run },
+    Prop { id: "C11", level: "exploration", watchdog_quick_s: 600, watchdog_thorough_s: 3600, run: c11_version_negotiation::run },
+    Prop { id: "C13", level: "exploration", watchdog_quick_s: 600, watchdog_thorough_s: 3600, run: c13_captive_portal::run },
+    Prop { id: "C15", level: "exploration", watchdog_quick_s: 600, watchdog_thorough_s: 3600, run: c15_dial_happy_eyeballs::run },
+    Prop { id: "C21", level: "exploration", watchdog_quick_s: 900, watchdog_thorough_s: 5400, run: c21_remote_lifecycle::run },
+    Prop { id: "C22", level: "exploration", watchdog_quick_s: 900, watchdog_thorough_s: 5400, run: c22_resolve::run },
+    Prop { id: "C23", level: "exploration", watchdog_quick_s: 600, watchdog_thorough_s: 3600, run: c23_prune_paths::run },
+    Prop { id: "C24", level: "exploration", watchdog_quick_s: 600, watchdog_thorough_s: 3600, run: c24_path_selection::run },
 ];
 
 /// In-target oracles of the libFuzzer targets (see /verif/fuzzing/fuzz).  Panics on a violation.
